@@ -147,7 +147,7 @@ package unused
 //@ func trace
 //@   trusted
 //@ func (*SerializedGraph).Merge
-//@   requires g != nil && wfGraph(g.nodes) && wfOwns(g.nodes)
+//@   requires g != nil && wfGraph(g.nodes) && wfOwns(g.nodes) && wfIDs(g.nodes)
 //@   requires (g.nodesByPath != nil ==> idsIn(g.nodesByPath, len(g.nodes))) && (g.nodesByPosition != nil ==> posIn(g.nodesByPosition, len(g.nodes)))
 //@   requires [ids]  forall k int :: {nodes[k]} 0 <= k && k < len(nodes) ==> 0 <= nodes[k].id && nodes[k].id < len(nodes)
 //@   requires [uses] forall k int, j int :: {nodes[k].uses[j]} 0 <= k && k < len(nodes) && 0 <= j && j < len(nodes[k].uses) ==> 0 <= nodes[k].uses[j] && nodes[k].uses[j] < len(nodes)
@@ -155,18 +155,21 @@ package unused
 //@   may_panic
 //@   modifies g.nodes, g.nodesByPath, g.nodesByPosition
 //@   ensures  [wf]   len(g.nodes) >= 1 && len(g.nodes) >= len(old(g.nodes)) && wfGraph(g.nodes) && wfOwns(g.nodes)
+//@   ensures  [ids]  wfIDs(g.nodes)
 //@   ensures  [maps] g.nodesByPath != nil && g.nodesByPosition != nil && idsIn(g.nodesByPath, len(g.nodes)) && posIn(g.nodesByPosition, len(g.nodes))
 //@   ensures  [keep] forall a int, j int :: {old(g.nodes)[a].uses[j]} 0 <= a && a < len(old(g.nodes)) && 0 <= j && j < len(old(g.nodes)[a].uses) ==> j < len(g.nodes[a].uses) && g.nodes[a].uses[j] == old(g.nodes)[a].uses[j]
 //@   loop 1   index k
 //@   loop 1   modifies g.nodes, g.nodesByPath, g.nodesByPosition
 //@   loop 1   invariant [rm]   len(remapping) == len(nodes) && (forall i int :: {remapping[i]} 0 <= i && i < len(remapping) ==> 0 <= remapping[i] && remapping[i] < len(g.nodes))
 //@   loop 1   invariant [wf]   len(g.nodes) >= 1 && len(g.nodes) >= len(old(g.nodes)) && wfGraph(g.nodes) && wfOwns(g.nodes)
+//@   loop 1   invariant [ids]  wfIDs(g.nodes)
 //@   loop 1   invariant [maps] g.nodesByPath != nil && g.nodesByPosition != nil && idsIn(g.nodesByPath, len(g.nodes)) && posIn(g.nodesByPosition, len(g.nodes))
 //@   loop 1   invariant [keep] forall a int, j int :: {old(g.nodes)[a].uses[j]} 0 <= a && a < len(old(g.nodes)) && 0 <= j && j < len(old(g.nodes)[a].uses) ==> j < len(g.nodes[a].uses) && g.nodes[a].uses[j] == old(g.nodes)[a].uses[j]
 //@   loop 2   index k
 //@   loop 2   modifies g.nodes
 //@   loop 2   invariant [rm]   remapping == loopentry(remapping)
 //@   loop 2   invariant [wf]   len(g.nodes) == len(loopentry(g.nodes)) && wfGraph(g.nodes) && wfOwns(g.nodes)
+//@   loop 2   invariant [ids]  wfIDs(g.nodes)
 //@   loop 2   invariant [keep] forall a int, j int :: {loopentry(g.nodes)[a].uses[j]} 0 <= a && a < len(g.nodes) && 0 <= j && j < len(loopentry(g.nodes)[a].uses) ==> j < len(g.nodes[a].uses) && g.nodes[a].uses[j] == loopentry(g.nodes)[a].uses[j]
 //@   loop 2   invariant [edges] forall q int, j int :: {nodes[q].uses[j]} 0 <= q && q < k && 0 <= j && j < len(nodes[q].uses) ==> hasUse(g.nodes[remapping[nodes[q].id]].uses, remapping[nodes[q].uses[j]])
 //@   loop 2   invariant [oedges] forall q int, j int :: {nodes[q].owns[j]} 0 <= q && q < k && 0 <= j && j < len(nodes[q].owns) ==> hasUse(g.nodes[remapping[nodes[q].id]].owns, remapping[nodes[q].owns[j]])
